@@ -261,7 +261,9 @@ func (c *Ctx) assumeAxiom(t *Term, cl *Clause) {
 	if cl.Tags["real"] {
 		need = "real"
 	}
-	c.asserts = append(c.asserts, &Assertion{Seq: c.nextSeq(), Text: t.S, NeedTag: need})
+	// axioms are exempt from path slicing: a fact about a spec function that only occurs inside the body of another
+	// (defined) spec function would otherwise be judged irrelevant
+	c.asserts = append(c.asserts, &Assertion{Seq: c.nextSeq(), Text: t.S, NeedTag: need, Always: need == ""})
 }
 
 // define introduces a named abbreviation sym = t.
